@@ -375,3 +375,37 @@ def stmt_text(node: ast.AST) -> str:
     """Normalised one-line text of a statement head (for diagnostics/keys, never for matching)."""
     t = ast.unparse(node).split('\n')[0]
     return t if len(t) < 100 else t[:97] + '...'
+
+
+def raise_guards(fn: ast.AST) -> List[Tuple[ast.expr, ast.Raise, List[ast.expr]]]:
+    """[(test, raise stmt, enclosing tests)] for every `if test: raise ...` (first body statement) in fn."""
+    out: List[Tuple[ast.expr, ast.Raise, List[ast.expr]]] = []
+
+    def rec(stmts: Sequence[ast.stmt], outer: List[ast.expr]) -> None:
+        for st in stmts:
+            if isinstance(st, ast.If):
+                rs = [s for s in st.body if isinstance(s, ast.Raise)]
+                if rs:
+                    out.append((st.test, rs[0], list(outer)))
+                rec(st.body, outer + [st.test])
+                rec(st.orelse, outer)
+            elif isinstance(st, (ast.For, ast.While, ast.With)):
+                rec(st.body, outer)
+                rec(getattr(st, 'orelse', []), outer)
+            elif isinstance(st, ast.Try):
+                rec(st.body, outer)
+                for h in st.handlers:
+                    rec(h.body, outer)
+                rec(st.orelse, outer)
+                rec(st.finalbody, outer)
+    rec(getattr(fn, 'body', []), [])
+    return out
+
+
+def raised_class(r: ast.Raise) -> str:
+    e = r.exc
+    if e is None:
+        return ''
+    if isinstance(e, ast.Call):
+        return dotted(e.func).split('.')[-1]
+    return dotted(e).split('.')[-1]
